@@ -241,6 +241,8 @@ impl Executor {
     /// error is encountered.
     pub(crate) fn run(&mut self, timeout: Duration) -> Result<(), ExecutorError> {
         self.context.pool_manager.activate_worker();
+        #[cfg(nexosim_verif)]
+        crate::verif::point(0);
 
         loop {
             if let Some((model_id, payload)) = self.context.pool_manager.take_panic() {
@@ -248,6 +250,8 @@ impl Executor {
             }
 
             if self.context.pool_manager.pool_is_idle() {
+                #[cfg(nexosim_verif)]
+                crate::verif::point(1);
                 let msg_count = self.context.msg_count.load(Ordering::Relaxed);
                 if msg_count != 0 {
                     let msg_count: usize = msg_count.try_into().unwrap();
@@ -474,6 +478,8 @@ fn schedule_task(task: Runnable, executor_id: usize) {
                 }
             }
 
+            #[cfg(nexosim_verif)]
+            crate::verif::point(11);
             // A task has been pushed to the local or injector queue: try to
             // activate another worker if no worker is currently searching for a
             // task.
@@ -514,13 +520,19 @@ fn run_local_worker(worker: &Worker, id: usize, parker: Parker, abort_signal: Si
         loop {
             // Signal barrier: park until notified to continue or terminate.
 
+            #[cfg(nexosim_verif)]
+            crate::verif::point(2);
             // Try to deactivate the worker.
             if pool_manager.try_set_worker_inactive(id) {
+                #[cfg(nexosim_verif)]
+                crate::verif::point(3);
                 // No need to call `begin_worker_search()`: this was done by the
                 // thread that unparked the worker.
                 update_msg_count();
                 parker.park();
             } else if injector.is_empty() {
+                #[cfg(nexosim_verif)]
+                crate::verif::point(4);
                 // This worker could not be deactivated because it was the last
                 // active worker. In such case, the call to
                 // `try_set_worker_inactive` establishes a synchronization with
@@ -528,7 +540,11 @@ fn run_local_worker(worker: &Worker, id: usize, parker: Parker, abort_signal: Si
                 // not activate a new worker, which is why some tasks may now be
                 // visible in the injector queue.
                 pool_manager.set_all_workers_inactive();
+                #[cfg(nexosim_verif)]
+                crate::verif::point(5);
                 update_msg_count();
+                #[cfg(nexosim_verif)]
+                crate::verif::point(6);
                 executor_unparker.unpark();
                 parker.park();
                 // No need to call `begin_worker_search()`: this was done by the
@@ -547,6 +563,8 @@ fn run_local_worker(worker: &Worker, id: usize, parker: Parker, abort_signal: Si
             loop {
                 // Check the injector queue first.
                 if let Some(bucket) = injector.pop_bucket() {
+                    #[cfg(nexosim_verif)]
+                    crate::verif::point(7);
                     let bucket_iter = bucket.into_iter();
 
                     // There is a _very_ remote possibility that, even though
@@ -580,6 +598,8 @@ fn run_local_worker(worker: &Worker, id: usize, parker: Parker, abort_signal: Si
                 } else {
                     // The injector queue is empty. Try to steal from active
                     // siblings.
+                    #[cfg(nexosim_verif)]
+                    crate::verif::point(8);
                     let mut stealers = pool_manager.shuffled_stealers(Some(id), &rng);
                     if stealers.all(|stealer| {
                         stealer
@@ -601,6 +621,8 @@ fn run_local_worker(worker: &Worker, id: usize, parker: Parker, abort_signal: Si
                     }
                 }
 
+                #[cfg(nexosim_verif)]
+                crate::verif::point(9);
                 // Signal the end of the search so that another worker can be
                 // activated when a new task is scheduled.
                 pool_manager.end_worker_search();
@@ -613,6 +635,8 @@ fn run_local_worker(worker: &Worker, id: usize, parker: Parker, abort_signal: Si
                     task.run();
                 }
 
+                #[cfg(nexosim_verif)]
+                crate::verif::point(10);
                 // Resume the search for tasks.
                 pool_manager.begin_worker_search();
                 search_start = Instant::now();
